@@ -11,16 +11,23 @@
 (* consistent with it (Tick): an event may not have finished before an     *)
 (* earlier listed one started.                                             *)
 (*                                                                         *)
-(*   Reset    mode queue qcap deflic lics proph   new history; `proph` is  *)
-(*            what the collector recorded per accepted connection: the     *)
+(*   Reset    mode queue qcap deflic lics srv proph   new history; `srv` = *)
+(*            the collectors ("A", "B", ...; each a scripted listener of   *)
+(*            its own) the client is configured with; `proph` is what the  *)
+(*            collectors recorded per connection the client established,   *)
+(*            in the order of the client's successful dials: the           *)
 (*            parsed frames (id, net, pcode, lh, plen, dg), the number of  *)
 (*            trailing bytes of an incomplete frame (+ its header if       *)
 (*            complete), and how the collector ended it (none/closed/reset)*)
 (*   Call/Ret        s id ...        harness, around Send                  *)
 (*   Locked Built Connect Sent Flushed Close Unlock Deq     hooks          *)
+(*            Connect carries the collector that answered (addr); Sent and *)
+(*            Flushed carry tmo = the error is an expired write deadline   *)
+(*            (the peer stalled: it is alive but did not read)             *)
 (*   Enq             s id ... ok     harness, queue mode (interval)        *)
-(*   ListenerDown/ListenerUp         harness                               *)
-(*   Config   via lic qreq srv  ->  obs_lic obs_qcap closed dial           *)
+(*   ListenerDown/ListenerUp  addr   harness: that collector's listener    *)
+(*   Config   via lic qreq srv (the collectors now configured)             *)
+(*                              ->  obs_lic obs_qcap closed dial           *)
 (*            harness, between sends: the configuration was changed by     *)
 (*            assignment to the exported fields ("field") or by ApplyConfig*)
 (*            ("apply"); what the client did inside ApplyConfig (dropped   *)
@@ -52,9 +59,12 @@ VARIABLES l,        \* cursor
           nst,      \* frames started (first unit handed to the socket) on the current connection
           wbytes,   \* bytes in the buffered writer
           todo,     \* pending overflow pushes of the send in progress: sequence of unit counts
-          todoErr   \* that send reported an error which one of the pushes must produce
+          todoErr,  \* that send reported an error which one of the pushes must produce
+          todoTmo   \* ... and that error is an expired write deadline
 
-tvars == <<vars, l, proph, lics, clock, nst, wbytes, todo, todoErr>>
+tvars == <<vars, l, proph, lics, clock, nst, wbytes, todo, todoErr, todoTmo>>
+
+Range(f) == {f[i] : i \in DOMAIN f}
 
 BufSize == 2097152
 HdrLen  == 22
@@ -66,21 +76,21 @@ Tick == /\ Ev.t[2] >= clock
 
 Step(name) == /\ todo = <<>> /\ IsEv(l, name) /\ l' = l + 1 /\ Tick
 
-TraceInit == /\ InitWith([queue |-> FALSE, qcap |-> 0, deflic |-> NoLic, srv |-> Here, gen |-> 0])
+TraceInit == /\ InitWith([queue |-> FALSE, qcap |-> 0, deflic |-> NoLic, srv |-> {}, gen |-> 0])
              /\ l = 1 /\ proph = <<>> /\ lics = <<>> /\ clock = 0 /\ nst = 0 /\ wbytes = 0
-             /\ todo = <<>> /\ todoErr = FALSE /\ HwmInit
+             /\ todo = <<>> /\ todoErr = FALSE /\ todoTmo = FALSE /\ HwmInit
 
 TraceReset ==
   /\ IsEv(l, "Reset") /\ l' = l + 1
-  /\ conf' = [queue |-> Ev.queue, qcap |-> Ev.qcap, deflic |-> Ev.deflic, srv |-> Here, gen |-> 0]
+  /\ conf' = [queue |-> Ev.queue, qcap |-> Ev.qcap, deflic |-> Ev.deflic, srv |-> Range(Ev.srv) \cap Addr, gen |-> 0]
   /\ lock' = None
   /\ pc' = [a \in Actor |-> "idle"] /\ cur' = [a \in Actor |-> NoPack] /\ fr' = [a \in Actor |-> <<>>]
   /\ res' = [a \in Actor |-> "-"]
   /\ conn' = 0 /\ nconn' = 0 /\ wbuf' = <<>> /\ werr' = FALSE /\ net' = <<>> /\ wire' = <<>>
-  /\ listener' = "open" /\ queue' = <<>>
+  /\ listener' = [ad \in Addr |-> "open"] /\ queue' = <<>>
   /\ reg' = <<>> /\ okset' = {} /\ errset' = {} /\ faults' = 0 /\ streak' = 0
   /\ proph' = Ev.proph /\ lics' = Ev.lics /\ clock' = 0 /\ nst' = 0 /\ wbytes' = 0
-  /\ todo' = <<>> /\ todoErr' = FALSE
+  /\ todo' = <<>> /\ todoErr' = FALSE /\ todoTmo' = FALSE
 
 PackOf(e) == [id |-> e.id, pcode |-> e.pcode, lic |-> e.lic,
               body |-> [ptype |-> e.ptype, plen |-> e.plen, dg |-> e.dg],
@@ -102,7 +112,10 @@ Arrives(c, data, j) ==
 \* how many units of this socket write the collector read
 Delivered(c, data) == Cardinality({j \in 1..Len(data) : Arrives(c, data, j)})
 
-KindOf(c) == IF Rec(c).cut = "none" THEN "closed" ELSE Rec(c).cut
+\* how the peer of a cut socket write went away: an expired write deadline (tmo, from the error the client got) means it
+\* stalled; else it is what the collector says it did to the connection
+KindOf(c, tmo) == IF tmo THEN "stalled" ELSE IF Rec(c).cut = "none" THEN "closed" ELSE Rec(c).cut
+Tmo(e) == Has(e, "tmo") /\ e.tmo
 
 \* observed header fields f against the frame header h of the send
 HdrOK(f, h) == /\ f.net = <<10, 0>>
@@ -123,15 +136,15 @@ UnitOK(c, data, j) ==
        ELSE /\ r.tail < x.h.body.plen + HdrLen                     \* a PROPER prefix
             /\ Has(r, "thdr") => HdrOK(r.thdr, x.h)
 
-\* guard added to every socket write: the outcome is the recorded one, a cut needs a collector that cut
-PushAs(c, data, d) ==
+\* guard added to every socket write: the outcome is the recorded one, a cut needs a collector that cut (or one that
+\* did not read in time: the write deadline expired)
+PushAs(c, data, d, tmo) ==
   /\ d = Delivered(c, data)
   /\ \A j \in 1..d : UnitOK(c, data, j)
-  /\ (net[c] = "up" /\ d < Len(data)) => Rec(c).cut # "none"
+  /\ (net[c] = "up" /\ d < Len(data)) => (Rec(c).cut # "none" \/ tmo)
   /\ nst' = nst + NA(data, Len(data))
 
-Quiet == UNCHANGED <<proph, lics, nst, wbytes, todo, todoErr>>
-QuietBut(v) == UNCHANGED <<proph, lics>>
+Quiet == UNCHANGED <<proph, lics, nst, wbytes, todo, todoErr, todoTmo>>
 
 \* ------------------------------------------------------------- events
 TraceCall == Step("Call") /\ Call(Ev.s, PackOf(Ev)) /\ Quiet
@@ -144,9 +157,9 @@ TraceBuilt == /\ Step("Built") /\ Ev.a \in Actor /\ cur[Ev.a].id = Ev.id
 
 TraceConnect ==
   /\ Step("Connect") /\ Ev.a \in Actor
-  /\ IF Ev.ok THEN ConnectOk(Ev.a) /\ nst' = 0 /\ wbytes' = 0
+  /\ IF Ev.ok THEN Has(Ev, "addr") /\ Ev.addr \in Addr /\ ConnectOk(Ev.a, Ev.addr) /\ nst' = 0 /\ wbytes' = 0
               ELSE ConnectFail(Ev.a) /\ UNCHANGED <<nst, wbytes>>
-  /\ UNCHANGED <<proph, lics, todo, todoErr>>
+  /\ UNCHANGED <<proph, lics, todo, todoErr, todoTmo>>
 
 \* bufio.Writer.Write of L bytes into a writer holding B bytes in n units: the overflow pushes
 Spills(L, B, n) ==
@@ -172,7 +185,7 @@ TraceSent ==
        ELSE /\ pc[a] = "built" /\ BufWrite(a)
             /\ IF werr THEN Ev.err /\ Quiet
                ELSE /\ todo' = Spills(L, wbytes, Len(wbuf))
-                    /\ todoErr' = Ev.err
+                    /\ todoErr' = Ev.err /\ todoTmo' = (Ev.err /\ Tmo(Ev))
                     /\ Ev.err => todo' # <<>>          \* a healthy writer with room cannot fail
                     /\ wbytes' = AfterWrite(L, wbytes)
                     /\ UNCHANGED <<proph, lics, nst>>
@@ -188,10 +201,10 @@ TraceSpill ==
               ok == IF ~todoErr THEN TRUE
                     ELSE ~(d < u \/ data[u].k = 1 \/ Len(todo) = 1) IN
           /\ u <= Len(wbuf)
-          /\ Spill(a, u, d, ok, IF net[conn] = "up" /\ (d < u \/ ~ok) THEN KindOf(conn) ELSE "closed")
-          /\ PushAs(conn, data, d)
-          /\ IF ok THEN todo' = Tail(todo) /\ UNCHANGED todoErr
-                   ELSE todo' = <<>> /\ todoErr' = FALSE
+          /\ Spill(a, u, d, ok, IF net[conn] = "up" /\ (d < u \/ ~ok) THEN KindOf(conn, todoTmo /\ ~ok) ELSE "closed")
+          /\ PushAs(conn, data, d, todoTmo /\ ~ok)
+          /\ IF ok THEN todo' = Tail(todo) /\ UNCHANGED <<todoErr, todoTmo>>
+                   ELSE todo' = <<>> /\ todoErr' = FALSE /\ todoTmo' = FALSE
   /\ UNCHANGED <<proph, lics, wbytes>>
 
 TraceClose ==
@@ -204,11 +217,12 @@ TraceFlushed ==
   /\ LET a == Ev.a IN
      IF pc[a] = "written"
        THEN LET d == IF wbuf = <<>> THEN 0 ELSE Delivered(conn, wbuf)
-                ok == ~Ev.err IN
-            /\ Flush(a, d, ok, IF wbuf # <<>> /\ net[conn] = "up" /\ (d < Len(wbuf) \/ ~ok) THEN KindOf(conn) ELSE "closed")
-            /\ IF wbuf = <<>> THEN UNCHANGED nst ELSE PushAs(conn, wbuf, d)
+                ok == ~Ev.err
+                tmo == Ev.err /\ Tmo(Ev) IN
+            /\ Flush(a, d, ok, IF wbuf # <<>> /\ net[conn] = "up" /\ (d < Len(wbuf) \/ ~ok) THEN KindOf(conn, tmo) ELSE "closed")
+            /\ IF wbuf = <<>> THEN UNCHANGED nst ELSE PushAs(conn, wbuf, d, tmo)
             /\ wbytes' = 0
-            /\ UNCHANGED <<proph, lics, todo, todoErr>>
+            /\ UNCHANGED <<proph, lics, todo, todoErr, todoTmo>>
        ELSE \* process(): after a failed send the worker still calls Flush on the dead writer
             /\ a = Worker /\ Ev.err /\ (werr \/ conn = 0) /\ pc[a] \in {"failed", "idle"}
             /\ UNCHANGED vars /\ Quiet
@@ -233,12 +247,12 @@ TraceConfig ==
   /\ Step("Config") /\ ~todoErr
   /\ Ev.obs_lic = Ev.lic
   /\ Ev.via = "field" => Ev.obs_qcap = Ev.qreq
-  /\ Reconfig(Ev.via, Ev.lic, Ev.obs_qcap, Ev.srv, Ev.closed, Ev.dial)
+  /\ Reconfig(Ev.via, Ev.lic, Ev.obs_qcap, Range(Ev.srv), Ev.closed, Ev.dial)
   /\ IF Ev.dial = "ok" THEN nst' = 0 /\ wbytes' = 0 ELSE UNCHANGED <<nst, wbytes>>
-  /\ UNCHANGED <<proph, lics, todo, todoErr>>
+  /\ UNCHANGED <<proph, lics, todo, todoErr, todoTmo>>
 
-TraceListenerDown == Step("ListenerDown") /\ ListenerDown /\ Quiet
-TraceListenerUp   == Step("ListenerUp") /\ ListenerUp /\ Quiet
+TraceListenerDown == Step("ListenerDown") /\ ListenerDown(Ev.addr) /\ Quiet
+TraceListenerUp   == Step("ListenerUp") /\ ListenerUp(Ev.addr) /\ Quiet
 
 \* silent: D1 -- no Close follows the failed Flush
 TraceSkipClose ==
